@@ -181,9 +181,20 @@ def spec_checks(q, gs, os_, sel_model, notes, out):
     return probs
 
 
+def witness(oc):
+    with Z.tmpdir("c09w_") as d:
+        write_tree(d, {"w.zo": "# w\n\n- 240101#00 third line\n" + "#\n" * 6 + "- 240101#01 tenth line\n"})
+        Z.db_create(d)
+        out = Z.execute(d, "S note W - O none G none")
+        oc.evaluations += 1
+        if out.split("\n")[0].endswith("tenth line"):
+            oc.known_hit["order_none_lexicographic"] = "line 10 is listed before line 3: %r" % out
+
+
 def run(oc, tier, seed):
     rng = random.Random(seed)
     eng = lib.Engine()
+    witness(oc)
     n_dirs, n_q = (3, 45) if tier == "quick" else (30, 120)
     oc.rule = ("indexed directories of 2-3 generated pages (sections with titles sorting around '|' and '~', multi-valued and "
                "empty tag sets, properties, two-digit line numbers); queries = select form (note/file/tags/prop keys/prop "
